@@ -261,15 +261,23 @@ def stepCanister (d : DState) (ws : List String) : DState × String :=
                 (s.utxos.ingesting.isSome && s'.unstable.thr > s.unstable.thr) }, "-")
   | ["call", ep, net, avail, ins, tok, cc, start], some s =>
     let (s', text, acc) := endpointCall d s ep (parseNetInRequest net) avail.toNat! ins.toNat! (parseAddrArg tok) cc.toNat! start.toNat!
-    ({ d with st := some s' }, s!"{text} accepted={acc} unchanged=1")
+    -- specification column: the same call with the network the spelling NAMES (C14/C19: the
+    -- generated conversion table must not matter)
+    let (_, textN, accN) := endpointCall d s ep (parseNetByName net) avail.toNat! ins.toNat! (parseAddrArg tok) cc.toNat! start.toNat!
+    ({ d with st := some s' }, s!"{text} accepted={acc} unchanged=1 ## {textN} accepted={accN} unchanged=1")
   | ["sendtx", net, avail, payload], some s =>
     let bytes := if payload == "-" then [] else hexToBytes payload
     -- well-formedness decided by the model's own consensus decoder (64-bit `usize`: native harness)
     let wf := (Btc.TxCodec.decodeExact bytes).isSome
-    match s.callSendTransaction (envOf d) (parseNetInRequest net) avail.toNat! bytes.length wf with
-    | .trap t => (d, s!"{showTrap t} accepted=0 counted=0 forwarded=none")
-    | .answered true acc s' => ({ d with st := some s' }, s!"ok accepted={acc} counted=1 forwarded={showNet (parseNetInRequest net)}:same")
-    | .answered false acc _ => (d, s!"err MalformedTransaction accepted={acc} counted=0 forwarded=none")
+    let out (n : Tree.Net) : Option State × String :=
+      match s.callSendTransaction (envOf d) n avail.toNat! bytes.length wf with
+      | .trap t => (none, s!"{showTrap t} accepted=0 counted=0 forwarded=none")
+      | .answered true acc s' => (some s', s!"ok accepted={acc} counted=1 forwarded={showNet n}:same")
+      | .answered false acc _ => (none, s!"err MalformedTransaction accepted={acc} counted=0 forwarded=none")
+    let (st', text) := out (parseNetInRequest net)
+    -- specification column: the network the spelling names (independent of the generated table)
+    let (_, textN) := out (parseNetByName net)
+    ({ d with st := match st' with | some x => some x | none => d.st }, text ++ " ## " ++ textN)
   | ["q", "synced"], some s => (d, if s.isSynced Btc.Gen.syncedThreshold then "1" else "0")
   | ["init", net, thr, blk, raw], _ =>
     match decodeChecked (parseNet net) raw blk with
